@@ -57,7 +57,7 @@ def evaluate(name, props, dest, seeds=(1,)):
                 t0 = time.time()
                 ev = tempfile.mkdtemp(prefix='ev-', dir='/tmp')
                 r = sh(f'{HERE}/check {prop} --tier quick --seed {seed}',
-                       env=dict(os.environ, AHRS_REPO=wt, VERIF_EVIDENCE_DIR=ev, VERIF_OUT_DIR=ev))
+                       env=dict(os.environ, AHRS_REPO=wt, VERIF_EVIDENCE_DIR=ev, VERIF_OUT_DIR=ev, VERIF_NO_SHRINK=os.environ.get('VERIF_NO_SHRINK', '1')))
                 viol = [ln for ln in r.stdout.splitlines() if ln.startswith('VIOLATION')]
                 buckets = [ln.strip()[:300] for ln in r.stdout.splitlines() if ln.strip().startswith('bucket=')]
                 rec['checks'].append({'property': prop, 'seed': seed, 'cmd': f'AHRS_REPO=<patched tree> ./check {prop} --tier quick --seed {seed}',
